@@ -11,13 +11,15 @@ MODULE = 'Ndt.Props.C04Multi'
 THEOREMS = ['Ndt.hessian_fdel_symmetric', 'Ndt.hessFlat_symmetric', 'Ndt.hessForward_quadratic', 'Ndt.hessForward_quadratic_diag',
             'Ndt.hessCentral_quadratic', 'Ndt.hessCentral_quadratic_diag', 'Ndt.hessCentral2_quadratic', 'Ndt.quadratic_form_along',
             'Ndt.bestEstimate_equal_columns', 'Ndt.hessian_constant_table', 'Ndt.hessdiag_exact',
-            'Ndt.hessComplex_quadratic', 'Ndt.phi_bcMPoly', 'Ndt.hessMulticomplex_quadratic']
+            'Ndt.hessComplex_quadratic', 'Ndt.phi_bcMPoly', 'Ndt.hessMulticomplex_quadratic', 'Ndt.hessian_complex_not_high_order']
 METHODS = ['central', 'central2', 'forward', 'backward', 'complex', 'multicomplex']
 
 
 def run(ctx):
     import numdifftools as nd
     from numdifftools.finite_difference import HessianDifferenceFunctions as HDF
+    from harness.translate import translator_obligations
+    translator_obligations(ctx, ['LogHessianRule'])
     lean_obligations(ctx, MODULE, THEOREMS)
     rng = ctx.rng
 
@@ -59,6 +61,7 @@ def run(ctx):
                           'Hessian; all six methods; Hessdiag orders 2, 4, 6; f returning a length-1 array; complex-valued f with real-step methods; '
                           'user step generators; checks: exact symmetry (H == H.T bitwise), entries within 1000 x error estimate + floor, Hessdiag vs '
                           'the Hessian diagonal within their error estimates; distinct = distinct (n, method, data)')
+    worst_few = 0.0
     for it in range(ctx.budget(120, 1500) * (2 if (ctx.broken or ctx.mismatches) else 1)):
         n = rng.randint(1, 6)
         meth = rng.choice(METHODS)
@@ -83,9 +86,16 @@ def run(ctx):
             f = lambda t: np.exp(np.dot(a, t)) + np.sin(np.dot(b, t)) + 0.5 * np.dot(t, Q @ t) + np.dot(a, t) * np.dot(b, t)
             exact = np.exp(a @ x) * np.outer(a, a) - np.sin(b @ x) * np.outer(b, b) + Q + np.outer(a, b) + np.outer(b, a)
         kw = {}
+        few_steps = False
         if rng.random() < 0.2:
             from numdifftools.step_generators import MinStepGenerator, MaxStepGenerator
             kw['step'] = MaxStepGenerator(base_step=0.5, num_steps=12) if meth not in ('complex', 'multicomplex') else MinStepGenerator(num_extrap=4)
+        elif meth in ('complex', 'multicomplex') and kind == 'smooth' and rng.random() < 0.6:
+            # three moderate steps: the cancellation-free formulas plus the paired Richardson stage must then deliver close to full
+            # accuracy (unchanged tree: below 1e-12 of the scale), whatever the error estimate says
+            from numdifftools.step_generators import MinStepGenerator
+            kw['step'] = MinStepGenerator(base_step=0.01, step_ratio=2.0, num_steps=3)
+            few_steps = True
         try:
             with warnings.catch_warnings():
                 warnings.simplefilter('ignore')
@@ -116,6 +126,9 @@ def run(ctx):
         scale = 1 + np.abs(exact).max() + np.abs(g).max()
         if kind in ('quadratic', 'len1', 'complexvalued'):
             bound = 1e-6 * scale if meth in ('forward', 'backward', 'complex') else 1e-8 * scale
+        elif few_steps:
+            bound = 1e-9 * scale
+            worst_few = max(worst_few, float(np.max(err)) / scale)
         else:
             bound = 1000 * est + {'forward': 1e-3, 'backward': 1e-3}.get(meth, 1e-5) * scale
         if np.any(err > bound):
@@ -145,6 +158,7 @@ def run(ctx):
             tol = 1000 * (np.abs(hi.error_estimate) + np.diag(est)) + {'forward': 1e-3, 'backward': 1e-3}.get(meth, 1e-5) * scale
             if np.any(np.abs(hd - dexact) > tol) or np.any(np.abs(hd - np.real(np.diag(H))) > 2 * tol):
                 ctx.violation('Hessdiag differs from the Hessian diagonal', order=order, hessdiag=hd.tolist(), diagonal=dexact.tolist(), **rep)
+    ctx.notes.append('few-step complex / bicomplex Hessians: worst error / scale = %.3g (bound 1e-9)' % worst_few)
     ctx.assumptions.append('the complex (Ridout eq. 10) and bicomplex Hessian formulas are covered by the search only; rounding is not modelled')
 
 
